@@ -114,6 +114,15 @@ fn gen(seed: u64, family: &str, tier: Tier) -> Case {
     let runtime = if family == "ksp" { json!({"type": "query_runtime", "limit": fmt_hms(limit_s.max(1) * 1_000_000_000), "frequency": 100000}) } else { runtime };
     w.termination = match family {
         "runtime" | "ksp" => runtime,
+        "edge" => {
+            if r.chance(0.5) {
+                runtime
+            } else {
+                let mut ms = vec![runtime, iters.clone()];
+                r.shuffle(&mut ms);
+                json!({"type": "combined", "models": ms})
+            }
+        }
         "iterations" => iters,
         "size" => size,
         _ => {
@@ -131,8 +140,16 @@ fn gen(seed: u64, family: &str, tier: Tier) -> Case {
     let pc = PluginChoice { override_heavy: false, grid: false, lb: None, inject: false, rtree: false };
     let nq = r.range(1, 10) as usize;
     let mut batch = vec![];
+    let edge_family = family == "edge";
+    w.edge_oriented = edge_family;
     for qid in 0..nq {
-        let (q, _) = gen_query(&mut r, &w, &pc, qid, false);
+        let (mut q, _) = gen_query(&mut r, &w, &pc, qid, false);
+        if edge_family {
+            // the edge-oriented wrapper runs the same search between the inner ends of the two edges
+            let ne = w.ne().max(1) as u64;
+            q["origin_edge"] = json!(r.below(ne));
+            q["destination_edge"] = json!(r.below(ne));
+        }
         batch.push(q);
     }
     let mut simcfg = gen_simcfg(&mut r);
@@ -378,6 +395,16 @@ fn judge(case: &Case, obs: &Obs) -> (Vec<Violation>, BTreeMap<String, u64>, bool
                 continue;
             }
         };
+        if case.family == "edge" {
+            // the wrapper answers some queries without running a search at all (same edge, or the
+            // destination edge starts where the origin edge ends): nothing to limit there
+            let oe = q["origin_edge"].as_u64().unwrap_or(0) as usize;
+            let de = q["destination_edge"].as_u64().unwrap_or(0) as usize;
+            if oe == de || oe >= w.ne() || de >= w.ne() || w.edges[oe].1 == w.edges[de].0 {
+                bump("edge_queries_without_inner_search", 1);
+                continue;
+            }
+        }
         let err = resp.get("error").and_then(|e| e.as_str()).unwrap_or("").to_string();
         let said: Vec<&'static str> = [("runtime", "exceeded runtime limit"), ("iteration", "exceeded iteration limit"), ("size", "exceeded solution size limit")].iter().filter(|(_, t)| err.contains(t)).map(|(k, _)| *k).collect();
         let terminated = !said.is_empty();
@@ -398,7 +425,7 @@ fn judge(case: &Case, obs: &Obs) -> (Vec<Violation>, BTreeMap<String, u64>, bool
                 v.push(Violation { class: "route-differs-from-unlimited".into(), detail: format!("query {}: route {} vs unlimited {}", qid, resp["route"]["path"], unlimited["route"]["path"]) });
             }
             bump("completed_under_limit", 1);
-            if let (Some(l), Some(n), true) = (lim.iterations, resp.get("iterations").and_then(|x| x.as_u64()), exact) {
+            if let (Some(l), Some(n), true) = (lim.iterations, resp.get("iterations").and_then(|x| x.as_u64()), exact && case.family != "edge") {
                 if n > l {
                     v.push(Violation { class: "iterations-over-limit".into(), detail: format!("query {} reports {} iterations under an iteration limit of {}", qid, n, l) });
                 }
@@ -508,7 +535,7 @@ impl Check for C10 {
         "C10"
     }
     fn families(&self, _tier: Tier) -> Vec<&'static str> {
-        vec!["runtime", "runtime", "combined", "iterations", "size", "combined", "ksp"]
+        vec!["runtime", "runtime", "combined", "iterations", "size", "combined", "ksp", "edge"]
     }
     fn default_runs(&self, tier: Tier) -> u64 {
         match tier {
